@@ -1,5 +1,6 @@
 from .. import common
 from .. import fam_pipeline as fp
+from .. import gen_models as gm
 from .. import oracles as orc
 
 THEOREMS = ["C05.pack4_length", "C05.unpack_pack", "C05.decode_encode8", "C05.encodeAll8", "C05.decode_encode", "C05.decode_encode_wrap", "C05.decodeAll_encodeAll", "C05.encodeAllLE_length", "C05.f16Val_f16Bits", "C17.dq_q_ideal", "C17.cover_ideal", "C17.dq_q_rounded"]
@@ -13,7 +14,10 @@ def run(ctx):
     def per_case(case, res):
         if res["status"] == "ok":
             orc.oracle_c05(ctx, case, res, fp.failer(ctx, case))
-    fp.explore(ctx, drv, 200 if ctx.tier == "quick" else 4000, per_case, graph_corr=False, pipe_corr=True)
+    def gen(rng, i):
+        # every 8th case: constants around the float16 overflow threshold (a float16 cast must round to nearest, incl. to inf)
+        return fp.gen_case(rng, i, const_kinds=gm.HUGE_KINDS) if i % 8 == 5 else fp.gen_case(rng, i)
+    fp.explore(ctx, drv, 200 if ctx.tier == "quick" else 4000, per_case, gen=gen, graph_corr=False, pipe_corr=True)
     drv.close()
     return common.finish(ctx)
 
